@@ -545,6 +545,7 @@ func runC16(r *Report) {
 	}
 	// … and the buffer an upload's payload lives in goes back to the pool once
 	bufferOnce(r, "R6")
+	bufferUseAfterGiveBack(r, "R6")
 	_ = types.Typ
 }
 
@@ -594,7 +595,10 @@ func queueBoundedBefore(st *ssa.Store, q *types.Var) bool {
 			return false
 		}
 		if _, isConst := bo.Y.(*ssa.Const); !isConst {
-			return false
+			// a configurable limit: bounded above on every path (limit := uploadQueueLimit(), clamped to reqQ)
+			if iv := (&IntEnv{}).At(bo.Y, pred); iv.Hi > 1<<16 {
+				return false
+			}
 		}
 		return (bo.Op == token.GEQ && !g.Pol) || (bo.Op == token.LSS && g.Pol)
 	}
